@@ -64,6 +64,13 @@ Theorem phy_reuse : forall prev data, phy_dec_into prev data = phy_dec_into zero
 Proof. reflexivity. Qed.
 
 (* the reuse models of the join-accept payload and of the CFList agree with the frame model of C01 *)
+Lemma cfl_masks_16 : forall d : list N, length d = 16 ->
+  cfl_masks_dec_into [] (firstn 15 d) = Ok (masks_loop (firstn 12 d) 8 [] []).
+Proof.
+  intros d H. do 16 (destruct d as [|? d]; [discriminate|]). destruct d; [|discriminate].
+  unfold cfl_masks_dec_into. generalize masks_loop. intros ml. reflexivity.
+Qed.
+
 Theorem joinaccept_dec_into_spec : forall prev data, joinaccept_dec_into prev data = joinaccept_unmarshal data.
 Proof.
   intros prev data. unfold joinaccept_dec_into, joinaccept_unmarshal.
@@ -76,8 +83,7 @@ Proof.
   apply negb_false_iff, Nat.eqb_eq in E16.
   set (d := skipn 12 data) in *.
   destruct (nth 15 d 0%N =? 1)%N.
-  - unfold cfl_masks_dec_into. rewrite firstn_length, E16. cbn -[masks_loop firstn].
-    rewrite firstn_firstn. reflexivity.
+  - rewrite (cfl_masks_16 d E16). cbn [bind]. rewrite firstn_firstn. reflexivity.
   - unfold cfl_channels_dec_into. rewrite firstn_length, E16. cbn -[le_val firstn skipn N.mul].
     reflexivity.
 Qed.
